@@ -713,8 +713,536 @@ def transform_stage(ctx, binary, stats, hist, notes):
 
 # ------------------------------------------------------------------------------------------------ circular / quaternion layouts
 
+# Float mirrors of the scalar kernels (used to recover the perturbations from the C++ sigma points and for the
+# closed forms; the Lean model is executed separately by the driver ops spl / utl).
+
+def wrap(x):
+    return math.atan2(math.sin(x), math.cos(x))
+
+
+def q_mul(a, b):
+    return [a[0] * b[0] - a[1] * b[1] - a[2] * b[2] - a[3] * b[3],
+            a[0] * b[1] + a[1] * b[0] + a[2] * b[3] - a[3] * b[2],
+            a[0] * b[2] + a[2] * b[0] + a[3] * b[1] - a[1] * b[3],
+            a[0] * b[3] + a[3] * b[0] + a[1] * b[2] - a[2] * b[1]]
+
+
+def q_conj(a):
+    return [a[0], -a[1], -a[2], -a[3]]
+
+
+def q_log2(q):
+    """2 log(q) as a rotation vector, with the code's cut-off and sign handling"""
+    nn = math.sqrt(q[1] * q[1] + q[2] * q[2] + q[3] * q[3])
+    if nn > 1e-4:
+        w = max(-1.0, min(1.0, q[0]))
+        f = (-2.0 * math.acos(-w)) if w < 0 else (2.0 * math.acos(w))
+        return [f * q[1] / nn, f * q[2] / nn, f * q[3] / nn]
+    return [0.0, 0.0, 0.0]
+
+
+def q_rot(p):
+    """rotation matrix of the unit quaternion p (v -> p v p*)"""
+    w, x, y, z = p
+    return [[1 - 2 * (y * y + z * z), 2 * (x * y - w * z), 2 * (x * z + w * y)],
+            [2 * (x * y + w * z), 1 - 2 * (x * x + z * z), 2 * (y * z - w * x)],
+            [2 * (x * z - w * y), 2 * (y * z + w * x), 1 - 2 * (x * x + y * y)]]
+
+
+def jacobi_eig(M):
+    """eigenvalues / eigenvectors (columns) of a small symmetric matrix by cyclic Jacobi rotations"""
+    n = len(M)
+    A = [list(map(float, r)) for r in M]
+    V = [[1.0 if i == j else 0.0 for j in range(n)] for i in range(n)]
+    for _ in range(60):
+        off = sum(A[i][j] ** 2 for i in range(n) for j in range(n) if i != j)
+        if off < 1e-300:
+            break
+        for p_ in range(n):
+            for q_ in range(p_ + 1, n):
+                if abs(A[p_][q_]) < 1e-300:
+                    continue
+                th = (A[q_][q_] - A[p_][p_]) / (2 * A[p_][q_])
+                t = (1.0 if th >= 0 else -1.0) / (abs(th) + math.sqrt(th * th + 1))
+                c = 1 / math.sqrt(t * t + 1)
+                s_ = t * c
+                for k_ in range(n):
+                    akp, akq = A[k_][p_], A[k_][q_]
+                    A[k_][p_], A[k_][q_] = c * akp - s_ * akq, s_ * akp + c * akq
+                for k_ in range(n):
+                    apk, aqk = A[p_][k_], A[q_][k_]
+                    A[p_][k_], A[q_][k_] = c * apk - s_ * aqk, s_ * apk + c * aqk
+                for k_ in range(n):
+                    vkp, vkq = V[k_][p_], V[k_][q_]
+                    V[k_][p_], V[k_][q_] = c * vkp - s_ * vkq, s_ * vkp + c * vkq
+    return [A[i][i] for i in range(n)], V
+
+
+class Lay:
+    """layout arithmetic (mirrors BFL.Layout)"""
+
+    def __init__(self, lin, circ, quat, noise):
+        self.lin, self.circ, self.quat, self.noise = lin, circ, quat, noise
+        self.cs = 4 if quat else 1
+        self.ts = 3 if quat else 1
+        self.dim = lin + circ * self.cs + noise
+        self.dof = lin + circ * self.ts + noise
+
+    def tangent(self, col, mean):
+        """tangent-space offset of one point (column, `dim` floats) from `mean` (dim floats): dof floats"""
+        out = [col[r] - mean[r] for r in range(self.lin)]
+        for q in range(self.circ):
+            r0 = self.lin + q * self.cs
+            if self.quat:
+                out += q_log2(q_mul(col[r0:r0 + 4], q_conj(mean[r0:r0 + 4])))
+            else:
+                out.append(wrap(col[r0] - mean[r0]))
+        base = self.lin + self.circ * self.cs
+        out += [col[base + r] - mean[base + r] for r in range(self.noise)]
+        return out
+
+
+def rnd_unit_quat(g):
+    while True:
+        q = [g.r.gauss(0, 1) for _ in range(4)]
+        n = math.sqrt(sum(x * x for x in q))
+        if n > 0.1:
+            return [x / n for x in q]
+
+
+def circ_case(g, tier):
+    """a transform between layouts with circular blocks; spreads kept small (sigma points within a fraction of a
+    turn of the mean, positive resultant) as the property's quantifier says"""
+    r = g.r
+    quat = r.random() < 0.5
+    linI = r.randint(0, 3)
+    circI = r.randint(1, 2) if r.random() < 0.9 else 0
+    if linI + circI == 0:
+        linI = 1
+    nz = r.choice([0, 0, 1, 2])
+    k = r.choice([1, 2, 3])
+    circO = r.randint(0, circI)
+    linO = r.randint(0, 3)
+    if linO + circO == 0:
+        linO = 1
+    li = Lay(linI, circI, quat, nz)
+    lo = Lay(linO, circO, quat, 0)
+    alpha, beta, kappa = rnd_params(g, li.dof)
+    c = float(Fraction(alpha) ** 2 * (li.dof + Fraction(kappa)))
+    dof0 = li.dof - nz
+    lam = 0.3 / max(c, 1.0)
+    style = r.choice(["full", "full", "full", "singular", "diag", "zero"])
+    Ps = []
+    for _ in range(k):
+        sc = lam * r.uniform(0.2, 1.0)
+        if style == "full":
+            P = g.spd(dof0, cond=10 ** r.uniform(0, 1.5), scale=sc)
+        elif style == "singular":
+            P = g.spd(dof0, cond=10 ** r.uniform(0, 1.5), scale=sc, rank=r.randint(0, max(0, dof0 - 1)))
+        elif style == "diag":
+            P = [[(sc * r.uniform(0.1, 1.0) if i == j else 0.0) for j in range(dof0)] for i in range(dof0)]
+        else:
+            P = [[0.0] * dof0 for _ in range(dof0)]
+        Ps.append(P)
+    means = []
+    for _ in range(k):
+        m = g.vec(linI)
+        for _q in range(circI):
+            if quat:
+                m += rnd_unit_quat(g)
+            else:
+                m.append(r.choice([3.1, -3.1, 0.0, 1.5, r.uniform(-3.14, 3.14), r.uniform(-3.14, 3.14), r.uniform(-6.0, 6.0)]))
+        means.append(m)
+    Qin = rnd_psd(g, nz, r.choice(["full", "dyadic", "singular", "diag"])) if nz else []
+    if nz:
+        # noise enters linear outputs only; keep its spread comparable
+        Qin = [[x * lam / max(1e-9, maxabs(Qin)) for x in row] for row in Qin]
+    A = g.mat(linO, linI + nz) if linO else []
+    bl = g.vec(linO)
+    Cl = [[r.uniform(-0.5, 0.5) for _ in range(linI)] for _ in range(circO)]
+    sgn = [r.choice([1.0, -1.0]) for _ in range(circO)]
+    perm = [r.randrange(circI) for _ in range(circO)]
+    bc = [r.uniform(-3.0, 3.0) for _ in range(circO)]
+    pq = [rnd_unit_quat(g) for _ in range(circO)]
+    side = [r.choice([0, 1]) for _ in range(circO)]
+    valid = r.random() > 0.08
+    toks = ["utc", str(linI), str(circI), "1" if quat else "0", str(nz), str(linO), str(circO), str(k), hexd(alpha), hexd(beta), hexd(kappa), "1" if valid else "0"]
+    toks += cm_tokens(A) if linO else []
+    toks += [hexd(v) for v in bl]
+    toks += cm_tokens(Cl) if (circO and linI) else []
+    toks += [hexd(v) for v in sgn] + [str(x) for x in perm] + [hexd(v) for v in bc]
+    toks += [hexd(pq[j][i]) for j in range(circO) for i in range(4)]
+    toks += [str(x) for x in side]
+    d0 = li.dim - nz
+    toks += [hexd(means[i][j]) for i in range(k) for j in range(d0)]
+    toks += [hexd(Ps[i][a][b]) for i in range(k) for b in range(dof0) for a in range(dof0)]
+    toks += cm_tokens(Qin) if nz else []
+    meta = {"li": li, "lo": lo, "k": k, "alpha": alpha, "beta": beta, "kappa": kappa, "c": c, "valid": valid, "style": style,
+            "A": A, "bl": bl, "Cl": Cl, "sgn": sgn, "perm": perm, "bc": bc, "pq": pq, "side": side, "means": means, "Ps": Ps, "Qin": Qin}
+    return " ".join(toks), meta
+
+
+def circ_closed_forms(meta):
+    """expected output mean (layout vector), tangent map T (dofO x dofI), per component: (mean, T P T^T, (P T^T) top rows)"""
+    li, lo, k = meta["li"], meta["lo"], meta["k"]
+    nz = li.noise
+    dof0 = li.dof - nz
+    T = [[0.0] * li.dof for _ in range(lo.dof)]
+    for a in range(lo.lin):
+        for l in range(li.lin):
+            T[a][l] = meta["A"][a][l]
+        for z in range(nz):
+            T[a][li.lin + li.circ * li.ts + z] = meta["A"][a][li.lin + z]
+    for q in range(lo.circ):
+        pr = meta["perm"][q]
+        if li.quat:
+            R = q_rot(meta["pq"][q]) if meta["side"][q] == 0 else [[1.0, 0, 0], [0, 1.0, 0], [0, 0, 1.0]]
+            for e in range(3):
+                for f in range(3):
+                    T[lo.lin + 3 * q + e][li.lin + 3 * pr + f] = R[e][f]
+        else:
+            T[lo.lin + q][li.lin + pr] = meta["sgn"][q]
+            for l in range(li.lin):
+                T[lo.lin + q][l] = meta["Cl"][q][l]
+    outs = []
+    for i in range(k):
+        m = meta["means"][i]
+        mean = []
+        for a in range(lo.lin):
+            mean.append(sum(meta["A"][a][l] * m[l] for l in range(li.lin)) + meta["bl"][a])
+        for q in range(lo.circ):
+            pr = meta["perm"][q]
+            if li.quat:
+                mq = m[li.lin + 4 * pr: li.lin + 4 * pr + 4]
+                mean += q_mul(meta["pq"][q], mq) if meta["side"][q] == 0 else q_mul(mq, meta["pq"][q])
+            else:
+                mean.append(wrap(meta["sgn"][q] * m[li.lin + pr] + sum(meta["Cl"][q][l] * m[l] for l in range(li.lin)) + meta["bc"][q]))
+        P = [[0.0] * li.dof for _ in range(li.dof)]
+        for a in range(dof0):
+            for b in range(dof0):
+                P[a][b] = meta["Ps"][i][a][b]
+        for a in range(nz):
+            for b in range(nz):
+                P[dof0 + a][dof0 + b] = meta["Qin"][a][b]
+        PTt = vlib.mmul(P, vlib.mT(T))
+        outs.append((mean, vlib.mmul(T, PTt), PTt[:dof0], P))
+    return T, outs
+
+
+def parse_utc_out(h, meta):
+    t = h.split()
+    flag, comps, dim, dimcov, cr, cc, xr, xc, calls = [int(x) for x in t[1:10]]
+    li, lo = meta["li"], meta["lo"]
+    N1 = 2 * li.dof + 1
+    p = 10
+    wm = [unhex(x) for x in t[p:p + N1]]; p += N1
+    wc = [unhex(x) for x in t[p:p + N1]]; p += N1
+    c = unhex(t[p]); p += 1
+    X = vlib.mat_from_cm(t[p:p + xr * xc], xr, xc, unhex); p += xr * xc
+    o = {"flag": flag, "comps": comps, "dim": dim, "dimcov": dimcov, "cross_shape": (cr, cc), "xshape": (xr, xc), "calls": calls,
+         "wm": wm, "wc": wc, "c": c, "X": X}
+    if flag:
+        Y = vlib.mat_from_cm(t[p:p + dim * xc], dim, xc, unhex); p += dim * xc
+        mean = vlib.mat_from_cm(t[p:p + dim * comps], dim, comps, unhex); p += dim * comps
+        cov = vlib.mat_from_cm(t[p:p + dimcov * dimcov * comps], dimcov, dimcov * comps, unhex); p += dimcov * dimcov * comps
+        w = [unhex(x) for x in t[p:p + comps]]; p += comps
+        cross = vlib.mat_from_cm(t[p:p + cr * cc], cr, cc, unhex); p += cr * cc
+        o.update({"Y": Y, "mean": mean, "cov": cov, "weights": w, "cross": cross})
+    o["same"] = t[p]
+    return o
+
+
+def tangent_err(lay, col, mean, E):
+    """rounding-error estimate of each tangent offset E (dof floats) of a point from a mean"""
+    out = [2 * EPS * (abs(col[r]) + abs(mean[r])) for r in range(lay.lin)]
+    for q in range(lay.circ):
+        if lay.quat:
+            e = E[lay.lin + 3 * q: lay.lin + 3 * q + 3]
+            th = math.sqrt(sum(x * x for x in e))
+            out += [8 * EPS / max(th, 1e-4) + 8 * EPS] * 3
+        else:
+            out.append(8 * EPS * math.pi)
+    base = lay.lin + lay.circ * lay.cs
+    out += [2 * EPS * (abs(col[base + r]) + abs(mean[base + r])) for r in range(lay.noise)]
+    return out
+
+
+def circ_points(meta, o, stats):
+    """sigma-point predicates for an arbitrary layout, in the tangent space; returns (problems, per-component
+    dict(B, E, Eerr))"""
+    li, k = meta["li"], meta["k"]
+    n, nz = li.dof, li.noise
+    N1 = 2 * n + 1
+    probs, comps = [], []
+    what = "layout(lin=%d, circ=%d %s, noise=%d)" % (li.lin, li.circ, "quaternion" if li.quat else "Euler", nz)
+    for i in range(k):
+        m = list(meta["means"][i]) + [0.0] * nz
+        cols = [[o["X"][r][N1 * i + j] for r in range(li.dim)] for j in range(N1)]
+        E = [li.tangent(cols[j], m) for j in range(N1)]
+        Eerr = [tangent_err(li, cols[j], m, E[j]) for j in range(N1)]
+        mscale = max([abs(v) for v in m] + [math.pi if li.circ else 0.0])
+        B = [[(E[1 + l][r] - E[1 + n + l][r]) / 2 for l in range(n)] for r in range(n)]
+        bscale = maxabs(B)
+        eerr = max(max(e) for e in Eerr)
+        e0 = max([abs(v) for v in E[0]] + [0.0])
+        t0 = 4 * EPS * mscale + 2 * eerr + 1e-300
+        stats["circ_first"] = max(stats.get("circ_first", 0.0), e0 / t0)
+        if e0 > t0:
+            probs.append(("first-not-mean", "%s component %d: first sigma point differs from the mean by %.3g (tangent space)" % (what, i, e0)))
+        ea = max([abs(E[1 + l][r] + E[1 + n + l][r]) / 2 for l in range(n) for r in range(n)] + [0.0])
+        ta = 8 * EPS * (mscale + bscale) + 2 * eerr + 1e-300
+        stats["circ_symmetry"] = max(stats.get("circ_symmetry", 0.0), ea / ta)
+        if ea > ta:
+            probs.append(("points-asymmetric", "%s component %d: columns 1+l and 1+n+l are not symmetric about the mean (%.3g, tangent space)" % (what, i, ea)))
+        P = [[0.0] * n for _ in range(n)]
+        d0 = n - nz
+        for a in range(d0):
+            for b in range(d0):
+                P[a][b] = meta["Ps"][i][a][b]
+        for a in range(nz):
+            for b in range(nz):
+                P[d0 + a][d0 + b] = meta["Qin"][a][b]
+        c = o["c"]
+        pn = max(n * maxabs(P), 1e-300)
+        res = max([abs(sum(B[a][l] * B[b][l] for l in range(n)) - c * P[a][b]) for a in range(n) for b in range(n)] + [0.0])
+        tol = C_SQRT * n * EPS * abs(c) * pn + 16 * n * bscale * (EPS * (mscale + bscale) + eerr) + 1e-300
+        stats["circ_contract"] = max(stats.get("circ_contract", 0.0), res / tol)
+        if res > tol:
+            probs.append(("sqrt-contract", "%s component %d: tangent-space factor B B^T differs from c P by %.3g (tolerance %.3g, c = %.6g)" % (what, i, res, tol, c)))
+        comps.append({"B": B, "E": E, "Eerr": Eerr, "m": m, "P": P, "sym_tol": ta})
+    return probs, comps
+
+
+def circ_lines(meta, o, comps):
+    """driver lines: sigma points of the model from the recovered factor (spl), moments of the model on the C++'s
+    own points (utl)"""
+    li, lo, k = meta["li"], meta["lo"], meta["k"]
+    n = li.dof
+    N1 = 2 * n + 1
+    toks = ["spl", str(li.lin), str(li.circ), "1" if li.quat else "0", str(li.noise), str(k)]
+    toks += [hexd(comps[i]["m"][r]) for i in range(k) for r in range(li.dim)]
+    for i in range(k):
+        B = comps[i]["B"]
+        pert = [[0.0] + [B[r][l] for l in range(n)] + [-B[r][l] for l in range(n)] for r in range(n)]
+        toks += cm_tokens(pert)
+    spl = " ".join(toks)
+    utl = None
+    if o["flag"]:
+        toks = ["utl", str(li.lin), str(li.circ), "1" if li.quat else "0", str(li.noise), str(lo.lin), str(lo.circ), "1" if lo.quat else "0", str(k)]
+        toks += [hexd(v) for v in o["wm"]] + [hexd(v) for v in o["wc"]]
+        toks += [hexd(comps[i]["m"][r]) for i in range(k) for r in range(li.dim)]
+        for i in range(k):
+            toks += [hexd(o["X"][r][N1 * i + j]) for j in range(N1) for r in range(li.dim)]
+        for i in range(k):
+            toks += [hexd(o["Y"][r][N1 * i + j]) for j in range(N1) for r in range(lo.dim)]
+        if lo.quat:
+            for i in range(k):
+                for q in range(lo.circ):
+                    toks += [hexd(o["mean"][lo.lin + 4 * q + e][i]) for e in range(4)]
+        utl = " ".join(toks)
+    return spl, utl
+
+
+def circ_compare(meta, o, comps, spl_out, utl_out, stats):
+    probs = []
+    li, lo, k = meta["li"], meta["lo"], meta["k"]
+    n, nz = li.dof, li.noise
+    N1 = 2 * n + 1
+    dof0 = n - nz
+    what = "%s layout" % ("quaternion" if li.quat else "Euler")
+    # (a) sigma points of the Lean model (Float) from the recovered factor vs the C++ sigma points
+    if not spl_out.startswith("ok"):
+        probs.append(("corr", "circ-model-undefined", "spl: %s" % spl_out[:40]))
+    else:
+        st = spl_out.split()[1:]
+        for i in range(k):
+            Xm = vlib.mat_from_cm(st[i * li.dim * N1:(i + 1) * li.dim * N1], li.dim, N1, unhex)
+            bs = maxabs(comps[i]["B"])
+            ms = max([abs(v) for v in comps[i]["m"]] + [1.0])
+            tol = 16 * EPS * (ms + bs + math.pi) + 2 * comps[i]["sym_tol"]
+            err = max(min(abs(Xm[r][j] - o["X"][r][N1 * i + j]), abs(abs(Xm[r][j] - o["X"][r][N1 * i + j]) - 2 * math.pi) if (not li.quat and li.lin <= r < li.lin + li.circ) else 1e300)
+                      for r in range(li.dim) for j in range(N1))
+            stats["circ_points_model"] = max(stats.get("circ_points_model", 0.0), err / tol)
+            if err > tol:
+                probs.append(("corr", "circ-points-vs-model", "%s, component %d: sigma points differ from the Lean model by %.3g (tol %.3g)" % (what, i, err, tol)))
+    if not o["flag"]:
+        return probs
+    T, cf = circ_closed_forms(meta)
+    swm, swc, _ = weights_frac(n, meta["alpha"], meta["beta"], meta["kappa"])
+    twm, twc, _ = weight_tols(n, meta["alpha"], meta["beta"], meta["kappa"])
+    awm, awc = [abs(float(x)) for x in swm], [abs(float(x)) for x in swc]
+    nops = (N1 + n + 8) * EPS
+    gw = sum(nops * awm[j] + twm[j] for j in range(N1))
+    mo = None
+    if utl_out is not None:
+        if not utl_out.startswith("ok"):
+            probs.append(("corr", "circ-model-undefined", "utl: %s" % utl_out[:40]))
+        else:
+            mo = [unhex(x) for x in utl_out.split()[1:]]
+    per = lo.dim + lo.dof * lo.dof + dof0 * lo.dof
+    rowsumT = [sum(abs(x) for x in T[a]) for a in range(lo.dof)]
+    for i in range(k):
+        emean, ecov, ecross, P = cf[i]
+        cmean = [o["mean"][r][i] for r in range(lo.dim)]
+        ccov = [[o["cov"][a][lo.dof * i + c] for c in range(lo.dof)] for a in range(lo.dof)]
+        ccross = [[o["cross"][a][lo.dof * i + c] for c in range(lo.dof)] for a in range(dof0)]
+        Ycols = [[o["Y"][r][N1 * i + j] for r in range(lo.dim)] for j in range(N1)]
+        Xcols = [[o["X"][r][N1 * i + j] for r in range(li.dim)] for j in range(N1)]
+        # mean tolerances per layout row
+        tol_mean = []
+        for r in range(lo.lin):
+            ymag = [sum(abs(meta["A"][r][l]) * abs(Xcols[j][l]) for l in range(li.lin)) +
+                    sum(abs(meta["A"][r][li.lin + z]) * abs(Xcols[j][li.lin + li.circ * li.cs + z]) for z in range(nz)) + abs(meta["bl"][r]) for j in range(N1)]
+            tol_mean.append(C_UT * sum((nops * awm[j] + twm[j]) * ymag[j] for j in range(N1)) + 1e-300)
+        tang_mean_tol = list(tol_mean)
+        for q in range(lo.circ):
+            if lo.quat:
+                r0 = lo.lin + 4 * q
+                M = [[sum(float(swm[j]) * Ycols[j][r0 + a] * Ycols[j][r0 + b] for j in range(N1)) for b in range(4)] for a in range(4)]
+                ev, V = jacobi_eig(M)
+                order = sorted(range(4), key=lambda z: -ev[z])
+                gap = ev[order[0]] - ev[order[1]]
+                vdom = [V[a][order[0]] for a in range(4)]
+                tq = C_UT * 4 * gw / max(gap, 1e-3) + 16 * EPS
+                tol_mean += [tq] * 4
+                tang_mean_tol += [2 * tq] * 3
+                v = cmean[r0:r0 + 4]
+                e_contract = min(max(abs(v[a] - vdom[a]) for a in range(4)), max(abs(v[a] + vdom[a]) for a in range(4)))
+                stats["circ_eig_contract"] = max(stats.get("circ_eig_contract", 0.0), e_contract / tq)
+                if e_contract > tq:
+                    probs.append(("prop", "quat-mean-not-dominant-eigenvector", "%s, component %d: mean quaternion is not the dominant eigenvector of sum w q q^T (err %.3g, tol %.3g)" % (what, i, e_contract, tq)))
+            else:
+                r0 = lo.lin + q
+                re = sum(float(swm[j]) * math.cos(Ycols[j][r0]) for j in range(N1))
+                im = sum(float(swm[j]) * math.sin(Ycols[j][r0]) for j in range(N1))
+                R = math.hypot(re, im)
+                ta = C_UT * 2 * gw / max(R, 1e-3) + 8 * EPS * math.pi
+                tol_mean.append(ta)
+                tang_mean_tol.append(ta)
+        # (c) closed-form mean
+        for r in range(lo.dim):
+            if r < lo.lin:
+                e = abs(cmean[r] - emean[r])
+            elif lo.quat:
+                r0 = lo.lin + 4 * ((r - lo.lin) // 4)
+                e = min(max(abs(cmean[r0 + a] - emean[r0 + a]) for a in range(4)), max(abs(cmean[r0 + a] + emean[r0 + a]) for a in range(4)))
+            else:
+                e = abs(wrap(cmean[r] - emean[r]))
+            stats["circ_mean_spec"] = max(stats.get("circ_mean_spec", 0.0), e / tol_mean[r])
+            if e > tol_mean[r]:
+                probs.append(("prop", "mean-not-affine", "%s, component %d: output mean row %d = %.17g, expected %.17g (err %.3g, tol %.3g)" % (what, i, r, cmean[r], emean[r], e, tol_mean[r])))
+                break
+        # tangent offsets (from the C++ points and the C++ mean) and their error estimates
+        d = [lo.tangent(Ycols[j], cmean) for j in range(N1)]
+        derr = [tangent_err(lo, Ycols[j], cmean, d[j]) for j in range(N1)]
+        dd = [[derr[j][a] + tang_mean_tol[a] + (nops * max(abs(Ycols[j][a]), 0.0) if a < lo.lin else 0.0) for a in range(lo.dof)] for j in range(N1)]
+        din = comps[i]["E"]
+        ddin = comps[i]["Eerr"]
+        tol_cov = [[C_UT * sum((nops * awc[j] + twc[j]) * (abs(d[j][a]) + dd[j][a]) * (abs(d[j][c]) + dd[j][c]) +
+                               awc[j] * ((abs(d[j][a]) + dd[j][a]) * dd[j][c] + (abs(d[j][c]) + dd[j][c]) * dd[j][a]) for j in range(N1)) + 1e-300
+                    for c in range(lo.dof)] for a in range(lo.dof)]
+        tol_cross = [[C_UT * sum((nops * awc[j] + twc[j]) * (abs(din[j][a]) + ddin[j][a]) * (abs(d[j][c]) + dd[j][c]) +
+                                 awc[j] * ((abs(din[j][a]) + ddin[j][a]) * dd[j][c] + (abs(d[j][c]) + dd[j][c]) * ddin[j][a]) for j in range(N1)) + 1e-300
+                      for c in range(lo.dof)] for a in range(dof0)]
+        pn = n * maxabs(P)
+        tsq = C_SQRT * n * EPS * pn
+        bad = False
+        for a in range(lo.dof):
+            for c in range(lo.dof):
+                tp = tol_cov[a][c] + tsq * rowsumT[a] * rowsumT[c]
+                e = abs(ccov[a][c] - ecov[a][c])
+                stats["circ_cov_spec"] = max(stats.get("circ_cov_spec", 0.0), e / tp)
+                if e > tp and not bad:
+                    probs.append(("prop", "cov-not-affine", "%s, component %d: output covariance[%d][%d] = %.17g, T P T^T = %.17g (err %.3g, tol %.3g)" % (what, i, a, c, ccov[a][c], ecov[a][c], e, tp)))
+                    bad = True
+                if mo is not None:
+                    mv = mo[i * per + lo.dim + c * lo.dof + a]
+                    em = abs(ccov[a][c] - mv)
+                    stats["circ_cov_model"] = max(stats.get("circ_cov_model", 0.0), em / tol_cov[a][c])
+                    if em > tol_cov[a][c] and not bad:
+                        probs.append(("corr", "circ-cov-vs-model", "%s, component %d: covariance[%d][%d] differs from the Lean model by %.3g (tol %.3g)" % (what, i, a, c, em, tol_cov[a][c])))
+                        bad = True
+        bad = False
+        for a in range(dof0):
+            for c in range(lo.dof):
+                tp = tol_cross[a][c] + tsq * rowsumT[c]
+                e = abs(ccross[a][c] - ecross[a][c])
+                stats["circ_cross_spec"] = max(stats.get("circ_cross_spec", 0.0), e / tp)
+                if e > tp and not bad:
+                    probs.append(("prop", "cross-not-affine", "%s, component %d: cross-covariance[%d][%d] = %.17g, (P T^T) = %.17g (err %.3g, tol %.3g)" % (what, i, a, c, ccross[a][c], ecross[a][c], e, tp)))
+                    bad = True
+                if mo is not None:
+                    mv = mo[i * per + lo.dim + lo.dof * lo.dof + c * dof0 + a]
+                    em = abs(ccross[a][c] - mv)
+                    stats["circ_cross_model"] = max(stats.get("circ_cross_model", 0.0), em / tol_cross[a][c])
+                    if em > tol_cross[a][c] and not bad:
+                        probs.append(("corr", "circ-cross-vs-model", "%s, component %d: cross-covariance[%d][%d] differs from the Lean model by %.3g (tol %.3g)" % (what, i, a, c, em, tol_cross[a][c])))
+                        bad = True
+        if mo is not None:
+            for r in range(lo.dim):
+                mv = mo[i * per + r]
+                em = abs(cmean[r] - mv)
+                if (not lo.quat) and r >= lo.lin:
+                    em = abs(wrap(cmean[r] - mv))
+                stats["circ_mean_model"] = max(stats.get("circ_mean_model", 0.0), em / tol_mean[r])
+                if em > tol_mean[r]:
+                    probs.append(("corr", "circ-mean-vs-model", "%s, component %d: mean row %d differs from the Lean model by %.3g (tol %.3g)" % (what, i, r, em, tol_mean[r])))
+                    break
+    return probs
+
+
+def circ_stage_impl(ctx, binary, stats, hist, notes):
+    g = ctx.gen("circular")
+    N = ctx.n(90, 3000)
+    cases = [circ_case(g, ctx.tier) for _ in range(N)]
+    lines = [c[0] for c in cases]
+    hout, logs = vlib.run_harness(binary, lines)
+    prop_bad, corr_bad = [], []
+    first, dl, dmap = [], [], {}
+    for ci, ((line, meta), h) in enumerate(zip(cases, hout)):
+        li, lo, k = meta["li"], meta["lo"], meta["k"]
+        kind = "none" if li.circ == 0 else ("quaternion" if li.quat else "euler")
+        hist["circ:in=" + kind] = hist.get("circ:in=" + kind, 0) + 1
+        hist["circ:out-circular=%d" % lo.circ] = hist.get("circ:out-circular=%d" % lo.circ, 0) + 1
+        hist["circ:noise-rows=%d" % li.noise] = hist.get("circ:noise-rows=%d" % li.noise, 0) + 1
+        hist["circ:valid=%d" % meta["valid"]] = hist.get("circ:valid=%d" % meta["valid"], 0) + 1
+        probs, o, comps = [], None, None
+        if not h.startswith("ok"):
+            probs.append(("prop", "ut-crash" if meta["valid"] else "ut-crash-on-failure", "unscented_transform failed on a valid input with circular components (%s): %s" % (kind, h[:80])))
+        else:
+            o = parse_utc_out(h, meta)
+            n = li.dof
+            if o["same"] != "in-same":
+                notes["input_modified"] = notes.get("input_modified", 0) + 1
+            if (not meta["valid"]) and o["flag"] != 0:
+                probs.append(("prop", "failure-reported-as-success", "circular layout: the function evaluation failed but the transform reported success"))
+            elif meta["valid"] and o["flag"] != 1:
+                probs.append(("prop", "success-reported-as-failure", "circular layout: valid evaluation but the transform reported failure"))
+            elif o["xshape"] != (li.dim, (2 * n + 1) * k) or (o["flag"] and ((o["comps"], o["dim"], o["dimcov"]) != (k, lo.dim, lo.dof) or o["cross_shape"] != (n - li.noise, lo.dof * k))):
+                probs.append(("prop", "ut-shape", "circular layout: sigma points %s, output %d x dim %d (dof %d), cross %s; expected %dx%d, %d x dim %d (dof %d), %dx%d" % (
+                    o["xshape"], o["comps"], o["dim"], o["dimcov"], o["cross_shape"], li.dim, (2 * n + 1) * k, k, lo.dim, lo.dof, n - li.noise, lo.dof * k)))
+            else:
+                pp, comps = circ_points(meta, o, stats)
+                probs += [("prop", a, b) for a, b in pp]
+                spl, utl = circ_lines(meta, o, comps)
+                dmap[ci] = (len(dl), len(dl) + 1 if utl else None)
+                dl.append(spl)
+                if utl:
+                    dl.append(utl)
+        first.append((probs, o, comps))
+    douts = vlib.run_driver(dl)
+    for ci, ((line, meta), h) in enumerate(zip(cases, hout)):
+        probs, o, comps = first[ci]
+        if ci in dmap:
+            a, b = dmap[ci]
+            probs += circ_compare(meta, o, comps, douts[a], douts[b] if b is not None else None, stats)
+        for kind, key2, what in probs:
+            (prop_bad if kind == "prop" else corr_bad).append((key2, what, line, h))
+    return len(cases), lines, prop_bad, corr_bad
+
+
 def circ_stage(ctx, binary, stats, hist, notes):
-    return 0, [], [], []
+    return circ_stage_impl(ctx, binary, stats, hist, notes)
 
 
 # ------------------------------------------------------------------------------------------------ run
